@@ -553,7 +553,7 @@ func (c *cache) get(nocache bool, ctx context.Context, url string, start, limit 
 	defer seg.Unlock()
 	seg.nreads++
 	if seg.done {
-		return seg.d, nil
+		return copyBlocks(seg.d), nil
 	}
 
 	blocks, err := f(ctx, url, start, limit)
@@ -563,7 +563,18 @@ func (c *cache) get(nocache bool, ctx context.Context, url string, start, limit 
 
 	seg.d = blocks
 	seg.done = true
-	return seg.d, nil
+	return copyBlocks(seg.d), nil
+}
+
+// Callers attach logs, receipts and traces to the blocks they receive.
+// Each caller gets its own copy so that cached blocks are never
+// modified while, or after, they are shared with another caller.
+func copyBlocks(blocks []eth.Block) []eth.Block {
+	res := make([]eth.Block, len(blocks))
+	for i := range blocks {
+		blocks[i].Copy(&res[i])
+	}
+	return res
 }
 
 func (c *Client) blocks(ctx context.Context, url string, start, limit uint64) ([]eth.Block, error) {
